@@ -453,11 +453,30 @@ int64_t evaluate_incdec(
             snprintf(old_str, sizeof(old_str), "%" PRId64, old_value);
             debug_msg(DebugMsgId::INCDEC_OLD_VALUE, old_str);
 
+            int64_t new_elem = old_value;
             if (node->op == "++") {
-                values[index] += 1;
+                new_elem += 1;
             } else if (node->op == "--") {
-                values[index] -= 1;
+                new_elem -= 1;
             }
+            // same conversion as an element assignment
+            // (CommonOperations::assign_array_element_safe)
+            if (array_var->is_unsigned && new_elem < 0) {
+                new_elem = 0;
+            }
+            {
+                TypeInfo elem_type =
+                    (array_var->type >= TYPE_ARRAY_BASE)
+                        ? static_cast<TypeInfo>(array_var->type -
+                                                TYPE_ARRAY_BASE)
+                        : array_var->type;
+                if (elem_type != TYPE_POINTER && !array_var->is_pointer) {
+                    interpreter.check_type_range(elem_type, new_elem,
+                                                 array_name,
+                                                 array_var->is_unsigned);
+                }
+            }
+            values[index] = new_elem;
 
             char new_str[32];
             snprintf(new_str, sizeof(new_str), "%" PRId64, values[index]);
